@@ -42,6 +42,9 @@ def setup : String → Option Setup
                    icName "2.0", issuecredential⟩
   | "ic3" => some ⟨⟨canOf Gen.issuecredentialV3_can, targetOf Gen.issuecredentialV3_target, (· != "3.0/ack"), icExec, false, "abandoning", false, ["done"]⟩,
                    icName "3.0", issuecredential⟩
+  -- introduce: no engine model (the Proto is a placeholder), the oracle judges against the published graph
+  | "in1" => some ⟨⟨canOf Gen.issuecredentialV2_can, targetOf Gen.issuecredentialV2_target, (· != "2.0/ack"), icExec, false, "abandoning", false, ["done"]⟩,
+                   icName "2.0", introduce⟩
   | _ => none
 
 def parseOp (s : Setup) (line : String) : Option Op :=
@@ -138,7 +141,7 @@ def oracleConn (input implOut : String) : String :=
   | _ => if implOut.startsWith "setup-error" then implOut else "unparsable: " ++ tail
 
 def handle (input : String) : String :=
-  if isConnProto input then "=" else
+  if isConnProto input || input.startsWith "in1|" then "=" else
   match input.splitOn "|" with
   | [proto, opsS] =>
     if hasFault opsS then "=" else
@@ -237,11 +240,19 @@ def overlapsObserved : List String → List String → List String → Bool
         overlapsObserved (und.eraseIdx (t.toNat?.getD und.length)) ops outs
       else overlapsObserved und ops outs
     | ["stop", i] => overlapsObserved (und.eraseIdx (i.toNat?.getD und.length)) ops outs
+    | ["oob", t] =>
+      -- the out-of-band event is turned into an inbound ack of thread t
+      ((base == "ok" || base == "okflt" || base == "flt") && und.contains t) || overlapsObserved und ops outs
     | _ => overlapsObserved und ops outs
   | _, _, _ => false
 
 def tags (input : String) (impl : String := "") : String :=
   if isConnProto input then (if announcedOutOfOrder input impl then "C09-F4" else "") else
+  if input.startsWith "in1|" then
+    -- introduce executes parked callbacks without re-checking the thread (as issue-credential does): open finding C09-F2
+    (match input.splitOn "|" with
+     | [_, opsS] => if overlapsObserved [] ((opsS.splitOn ";").filter (· != "")) (impl.splitOn "|") then "C09-F2" else ""
+     | _ => "") else
   match input.splitOn "|" with
   | [proto, opsS] =>
     match setup proto with
